@@ -26,7 +26,11 @@ RULE = ("random discrete frames: 1..80 rows, 2+|Z| (+1 spare) columns, |Z| 0..3,
         "|Z| 0..3, optional duplicated/constant Z column (rank deficient), conditioning columns of clearly different "
         "means and scales (half of the |Z|>=2 cases), shift and positive rescaling of every variable, per-column "
         "centring/standardising of Z.  Numeric lambda_ grid {0, 0.0, -0.0, 1, -1, -1.0, -2, 2/3, 0.5} (python int and "
-        "float) x {no Z, Z} on frames with dof >= 1.  A discrete case is non-trivial when the model's dof >= 1; a pearsonr case when the residual "
+        "float) x {no Z, Z} on frames with dof >= 1.  Same-frame sessions: ONE DataFrame object, 2-4 tests with the same "
+        "or a different Z, with in-place edits in between (replace a column, .loc edits, in-place stable sort, in-place "
+        "row permutation, new column); every answer is compared with the model on the frame's current content and with "
+        "the answer on a fresh copy.  pearsonr extreme unit changes: X, Y by {1e-12,1e-9,3e-9,1e-6,1e6,1e9}, Z columns "
+        "by {1e-9,3e-9,1e-6,1e6,1e9} (coefficient 1e-7, verdict equal); exactly constant X or Y (NaN, verdict False).  A discrete case is non-trivial when the model's dof >= 1; a pearsonr case when the residual "
         "correlation is defined.  distinct = distinct canonical (kind, data, X, Y, Z, wrapper, lambda_, alpha)")
 TRUSTED_BASE = [
     "scipy.stats.chi2_contingency / power_divergence cell formula (PHI is an uninterpreted atom; the harness "
@@ -193,6 +197,14 @@ def gen_bad(rng, tier):
     return c
 
 
+# extreme positive unit changes.  X and Y: stable on the unmodified tree over 1e-100..1e150.  Z columns: numpy's
+# lstsq(rcond=None) treats a column whose scale is ~1e15 away from the others as rank deficient, and loses ~1e-7
+# already at 1e-12/1e12, so the stable range 1e-9..1e9 is used for them, all Z columns of one case on the same side
+# (the ratio between any two columns of [1 Z] stays <= 1e9).
+EXTREME_XY = [1e-12, 1e-9, 3e-9, 1e-6, 1e6, 1e9]
+EXTREME_Z = [1e-9, 3e-9, 1e-6, 1e6, 1e9]
+
+
 def gen_pearson(rng, tier):
     nz = rng.choice([0, 1, 1, 2, 2, 3])
     n = rng.randint(max(4, nz + 3), 24)
@@ -228,10 +240,67 @@ def gen_pearson(rng, tier):
         y.append(yv)
     if rng.random() < 0.04 and nz >= 1:
         x = [3 * r[0] + 5 for r in z]   # exactly linear in Z: residual is zero, correlation undefined
+    const = None
+    if rng.random() < 0.06:
+        const = rng.choice(["x", "y"])   # an exactly constant column: scipy returns nan, the verdict is False
+        if const == "x":
+            x = [x[0]] * n
+        else:
+            y = [y[0]] * n
     shifts = [rng.randint(-96, 96) for _ in range(nz + 2)]
     scales = [rng.choice([0.25, 0.5, 2.0, 3.0, 5.0, 0.75, 10.0]) for _ in range(nz + 2)]
     return {"kind": "pearson", "den": den, "z": z, "x": x, "y": y, "alpha": rng.choice(ALPHAS), "mode": mode,
-            "sing": sing, "spread": spread, "shifts": shifts, "scales": scales, "zperm": rng.randint(0, 10 ** 9)}
+            "sing": sing, "spread": spread, "const": const, "shifts": shifts, "scales": scales,
+            "xscales": [rng.choice(EXTREME_XY) for _ in range(2)] +
+                       (lambda side: [rng.choice(side) for _ in range(nz)])(rng.choice([EXTREME_Z[:3], EXTREME_Z[3:]])),
+            "zperm": rng.randint(0, 10 ** 9)}
+
+
+def gen_session(rng, tier):
+    """one DataFrame OBJECT, 2-4 conditional/unconditional tests on it with in-place edits in between"""
+    ncols = rng.randint(4, 5)
+    cards = [rng.randint(2, 3) for _ in range(ncols)]
+    n = rng.choice([12, 20, 30, 40, 60])
+    rows = [[rng.randrange(cards[c]) for c in range(ncols)] for _ in range(n)]
+    steps = []
+    cur_cols, cur_cards = ncols, list(cards)
+    prevZ = None
+    X, Y = rng.sample(range(ncols), 2)
+    for i in range(rng.randint(2, 4)):
+        edit = None
+        if i > 0:
+            t = rng.choice(["setcol", "setcol", "loc", "loc", "sort", "perm", "addcol", "none"])
+            zc = [c for c in (prevZ or []) if c not in (X, Y)] or [c for c in range(cur_cols) if c not in (X, Y)]
+            if t == "setcol":
+                c = rng.choice(zc)
+                edit = ["setcol", c, [rng.randrange(cur_cards[c]) for _ in range(n)]]
+            elif t == "loc":
+                c = rng.choice(zc)
+                edit = ["loc", [[rng.randrange(n), c, rng.randrange(cur_cards[c])] for _ in range(rng.randint(1, n // 2))]]
+            elif t == "sort":
+                edit = ["sort", rng.sample(range(cur_cols), rng.randint(1, 2)), rng.random() < 0.5]
+            elif t == "perm":
+                perm = list(range(n))
+                rng.shuffle(perm)
+                edit = ["perm", perm]
+            elif t == "addcol":
+                card = rng.randint(2, 3)
+                edit = ["addcol", [rng.randrange(card) for _ in range(n)]]
+                cur_cards.append(card)
+                cur_cols += 1
+        if rng.random() < 0.25:
+            X, Y = rng.sample(range(ncols), 2)
+        others = [c for c in range(cur_cols) if c not in (X, Y)]
+        if prevZ is not None and rng.random() < 0.65 and all(c not in (X, Y) for c in prevZ):
+            Z = list(prevZ)
+        else:
+            Z = rng.sample(others, rng.randint(0, min(2, len(others))))
+        if edit and edit[0] == "addcol" and rng.random() < 0.5:
+            Z = [cur_cols - 1] + [z for z in Z if z != cur_cols - 1][:1]
+        prevZ = Z
+        w = rng.choice(WRAPPERS[:5])
+        steps.append({"edit": edit, "X": X, "Y": Y, "Z": Z, "w": w, "alpha": rng.choice(ALPHAS)})
+    return {"kind": "session", "ncols": ncols, "rows": rows, "steps": steps}
 
 
 def cases(tier, seed):
@@ -244,6 +313,8 @@ def cases(tier, seed):
         for larg in NUMERIC_GRID:
             for with_z in (False, True):
                 out.append(gen_lambda(rng, larg, with_z))
+    for _ in range(150 * mult):
+        out.append(gen_session(rng, tier))
     for _ in range(250 * mult):
         out.append(gen_indep(rng, tier))
     for _ in range(90 * mult):
@@ -575,6 +646,20 @@ def run_pearson(case, drv):
                    key=key, tags=tags)
     if not corr:
         tags.append("corr:undefined")
+        if nz == 0 or case.get("const"):
+            # an exactly constant X or Y (its residual is exactly constant too when it is regressed on [1 Z] only
+            # if lstsq is exact, so the strict check is made for Z = [] only): coefficient and p-value are NaN
+            # and the verdict is False for every significance level
+            tags.append("constant-column:%s" % ("noZ" if nz == 0 else "Z"))
+            v_i = bool(CITests.pearsonr("X", "Y", zn, df, boolean=True, significance_level=case["alpha"]))
+            v_m = bool(drv.call("c19_verdict", [p_opt(p_i), Fraction(case["alpha"])]))
+            if nz == 0 and not (coef_i != coef_i and p_i != p_i and v_i is False):
+                return bad("impl!=model:pearson-constant", {"impl": [coef_i, p_i, v_i], "model": ["nan", "nan", False]},
+                           key=key, tags=tags)
+            if v_i != v_m:
+                return bad("impl!=model:verdict", {"p_impl": p_i, "alpha": case["alpha"], "impl": v_i, "model": v_m},
+                           key=key, tags=tags)
+            return ok(nontrivial=(nz == 0), key=key, tags=tags)
         return ok(nontrivial=False, key=key, tags=tags)
     sign, r2 = corr[0][0], common.frac(corr[0][1])
     r_m = sign * math.sqrt(float(r2))
@@ -614,19 +699,94 @@ def run_pearson(case, drv):
         sd = {c: float(df[c].std()) for c in zn}
         if all(v > 0 for v in sd.values()):
             variants.append(("z-standardise-columns", df.assign(**{c: (df[c] - df[c].mean()) / sd[c] for c in zn}), zn))
+    xs = case.get("xscales")
+    if xs:
+        cols = ["X", "Y"] + zn
+        variants.append(("extreme-scale-all", df.assign(**{c: df[c] * xs[i] for i, c in enumerate(cols)}), zn))
+        j = rng.randrange(len(cols))
+        variants.append(("extreme-scale-one", df.assign(**{cols[j]: df[cols[j]] * xs[j]}), zn))
+        tags.append("extreme-scales")
     variants.append(("row-shuffle", df.sample(frac=1.0, random_state=case["zperm"] % (2 ** 31)).reset_index(drop=True), zn))
     for name, d2, z2 in variants:
         c2, p2 = CITests.pearsonr("X", "Y", z2, d2, boolean=False)
-        if not same_float(c2, coef_i, 1e-9) or not same_float(p2, p_i, 1e-8, True):
+        tol = 1e-7 if name.startswith("extreme") else 1e-9
+        if not same_float(c2, coef_i, tol) or not same_float(p2, p_i, max(tol, 1e-8), True):
             return bad("impl!=property:pearson-" + name, {"base": [coef_i, p_i], "transformed": [float(c2), float(p2)]},
                        key=key, tags=tags)
+        if name.startswith("extreme") and abs(p_i - alpha) >= 1e-6:
+            v2 = bool(CITests.pearsonr("X", "Y", z2, d2, boolean=True, significance_level=alpha))
+            if v2 != v_i:
+                return bad("impl!=property:pearson-" + name + "-verdict", {"base": v_i, "transformed": v2, "p": p_i,
+                                                                            "alpha": alpha}, key=key, tags=tags)
     c2, p2 = CITests.pearsonr("Y", "X", zn, df, boolean=False)
     if not same_float(c2, coef_i, 1e-9):
         return bad("impl!=property:pearson-swap-xy", {"base": coef_i, "transformed": float(c2)}, key=key, tags=tags)
     return ok(nontrivial=True, key=key, tags=tags)
 
 
+def model_triple(drv, w, kinds, rows, X, Y, Z):
+    m = drv.call_e("c19_pd", [WRAPPERS.index(w), [], [[] if k is None else [k] for k in kinds], rows, X, Y, Z])
+    if m[0] == "err":
+        return ("err", m[1])
+    lam, cells, dof, pkind = m[1]
+    st = eval_stat(common.frac(lam), cells)
+    return ("ok", st, eval_p(pkind, st, dof), dof)
+
+
+def run_session(case, drv):
+    import numpy as np
+    import pandas as pd
+    from pgmpy.estimators import CITests
+    ncols = case["ncols"]
+    names = ["c%d" % i for i in range(ncols)]
+    df = pd.DataFrame({names[c]: [r[c] for r in case["rows"]] for c in range(ncols)})
+    tags = ["kind:session", "calls:%d" % len(case["steps"])]
+    key = common.canon_key(["session", case["rows"], case["steps"]])
+    fake = {"w": None, "larg": None, "alpha": None}
+    prevZ = None
+    for i, st in enumerate(case["steps"]):
+        e = st["edit"]
+        if e:
+            tags.append("edit:" + e[0])
+            if e[0] == "setcol":
+                df[names[e[1]]] = e[2]
+            elif e[0] == "loc":
+                for lab, c, v in e[1]:
+                    df.loc[lab, names[c]] = v
+            elif e[0] == "sort":
+                df.sort_values(by=[names[c] for c in e[1]], ascending=e[2], inplace=True, kind="stable")
+            elif e[0] == "perm":
+                df.loc[:, :] = df.values[e[1]]
+            elif e[0] == "addcol":
+                names.append("c%d" % len(names))
+                df[names[-1]] = e[1]
+        X, Y, Z = st["X"], st["Y"], st["Z"]
+        if prevZ is not None and Z and sorted(Z) == sorted(prevZ) and e:
+            tags.append("same-Z-after-edit")
+        prevZ = Z
+        fake["w"], fake["alpha"] = st["w"], st["alpha"]
+        rows = [[int(v) for v in r] for r in df[names].values.tolist()]      # the frame's CURRENT content
+        kinds = [None] * len(names)
+        model = model_triple(drv, st["w"], kinds, rows, X, Y, Z)
+        impl = impl_triple(fake, df, names, X, Y, Z)
+        fresh = impl_triple(fake, df.copy(), names, X, Y, Z)
+        detail = {"step": i, "edit": e, "X": X, "Y": Y, "Z": Z, "w": st["w"], "session": impl, "fresh_copy": fresh,
+                  "model": model}
+        if not triples_agree(fresh, model):
+            return bad("impl!=model:statistic", detail, key=key, tags=tags)
+        if not triples_agree(impl, model):
+            return bad("impl!=model:session-stale", detail, key=key, tags=tags)
+        if impl[0] == "ok":
+            v_s = bool(call_impl(fake, df, names, X, Y, Z, True))
+            v_m = bool(drv.call("c19_verdict", [p_opt(impl[2]), Fraction(st["alpha"])]))
+            if v_s != v_m:
+                return bad("impl!=model:verdict", detail, key=key, tags=tags)
+    return ok(nontrivial=True, key=key, tags=tags)
+
+
 def run_case(case, drv):
+    if case["kind"] == "session":
+        return run_session(case, drv)
     if case["kind"] in ("disc", "indep", "bad"):
         return run_disc(case, drv)
     if case["kind"] == "pearson":
